@@ -105,6 +105,13 @@ def gen_cases(tier, seed):
             d['optclass'] = options.classify(o)
             cases.append(d)
         k += 1
+    # name-pool exhaustion: enough live names to reach the two-letter names where keywords (as if in is or) and builtins (id) would appear
+    from vf.gen import scopegen
+    for glob_ in (False, True):
+        o = options.all_off()
+        o['rename_globals' if glob_ else 'rename_locals'] = True
+        cases.append({'shape': 'seed:exhaustion.%s' % ('globals' if glob_ else 'locals'), 'src': scopegen.exhaustion_case(1800 if tier == 'quick' else 2400, as_globals=glob_),
+                      'op': 'mc', 'opts': o, 'optclass': 'single:rename', 'case_timeout': 120})
     n_inv = 300 if tier == 'quick' else 3000
     for c in union.invalid_sources(seed, n_inv):
         c['op'] = 'mc'
